@@ -2,3 +2,7 @@ pub use node::{body_size, BranchNode, BranchNodeBuilder, BranchNodeView, BRANCH_
 pub mod node;
 
 pub const BRANCH_NODE_SIZE: usize = 4096;
+
+#[cfg(kani)]
+#[path = "/verif/units/kani/branch_mod.rs"]
+mod verif_kani;
